@@ -284,6 +284,16 @@ func runCheck(repo, prop, tier, speclib string, seed int64, writeEvidence bool, 
 	for _, l := range lines {
 		fmt.Println(l)
 	}
+	// thorough tier: must-fail selftest of this check on the stored seeded changes (vacuity guard for the machinery)
+	var selftest []map[string]interface{}
+	if tier == "thorough" && os.Getenv("VERIF_NO_SELFTEST") == "" && violations == 0 {
+		selftest = runSelftest(repo, prop, speclib, &kf)
+		for _, r := range selftest {
+			if r["outcome"] == "MISSED" {
+				fmt.Printf("SELFTEST-WARNING property=%s seeded change %v, recorded as detected, is no longer reported by this check (machinery regression, not a property violation)\n", prop, r["seed"])
+			}
+		}
+	}
 	// evidence
 	if writeEvidence {
 		var fns []map[string]interface{}
@@ -323,7 +333,7 @@ func runCheck(repo, prop, tier, speclib string, seed int64, writeEvidence bool, 
 				"bounded_obligations": bounded, "bounded_discharged": boundedOK, "bounded_loops": boundedLoops,
 				"checker_cmd":  fmt.Sprintf("/verif/bin/govc check -tier %s %s (govc: go/ssa symbolic execution -> SMT-LIB; z3-new 5.1.0 primary, z3 4.8.12 + cvc5 1.0 portfolio on failures%s)", tier, prop, map[bool]string{true: ", every obligation re-discharged on a second back end", false: ""}[tier == "thorough"]),
 				"trusted_base": as, "samples": samples, "functions_under_contract": fns, "solver_time_s": solverSecs,
-				"known_findings": known, "unsupported": unsupp,
+				"known_findings": known, "unsupported": unsupp, "selftest_on_seeded_changes": selftest,
 				"explanation": "each obligation is a verification condition generated from the SSA of the real function in /repo (current working tree, build tag verif) against its //@ contract; discharged = unsat on every path",
 			},
 			"assumptions": as, "wall_s": round3(time.Since(t0).Seconds()), "violations": violations,
@@ -397,4 +407,77 @@ func parseModel(text string) map[string]string {
 		m[name] = v
 	}
 	return m
+}
+
+
+// runSelftest applies every stored seeded change of the property that is recorded as detected to a scratch copy of
+// the current working tree (outside /repo and /verif, removed afterwards) and runs the quick verification on the copy:
+// the change must make at least one obligation fail. A patch that no longer applies is skipped.
+func runSelftest(repo, prop, speclib string, kf *KnownFindings) []map[string]interface{} {
+	var out []map[string]interface{}
+	dirs, _ := filepath.Glob(filepath.Join(verifDir(), "seeded", prop+"-*"))
+	sort.Strings(dirs)
+	for _, d := range dirs {
+		mb, err := os.ReadFile(filepath.Join(d, "meta.json"))
+		if err != nil {
+			continue
+		}
+		var meta struct {
+			CheckResult struct {
+				Detected string `json:"detected"`
+				Note     string `json:"note"`
+			} `json:"check_result"`
+		}
+		if json.Unmarshal(mb, &meta) != nil || meta.CheckResult.Detected != "yes" {
+			continue
+		}
+		res := map[string]interface{}{"seed": filepath.Base(d), "expected": meta.CheckResult.Note}
+		scratch, err := os.MkdirTemp("", "govc-selftest-")
+		if err != nil {
+			continue
+		}
+		func() {
+			defer os.RemoveAll(scratch)
+			cp := exec.Command("rsync", "-a", "--exclude", ".git", repo+"/", scratch+"/")
+			if o, err := cp.CombinedOutput(); err != nil {
+				res["outcome"] = "skipped (copy failed: " + oneLine(string(o)) + ")"
+				return
+			}
+			ap := exec.Command("git", "apply", "--whitespace=nowarn", filepath.Join(d, "patch.diff"))
+			ap.Dir = scratch
+			if o, err := ap.CombinedOutput(); err != nil {
+				res["outcome"] = "skipped (patch does not apply to the current tree: " + oneLine(string(o)) + ")"
+				return
+			}
+			rep, err := runVerify(scratch, prop, "quick", nil, speclib)
+			if err != nil {
+				res["outcome"] = "skipped (" + err.Error() + ")"
+				return
+			}
+			var failing []string
+			for _, o := range rep.Obls {
+				if o.Status == "discharged" || o.Status == "trivial" {
+					continue
+				}
+				if matchFinding(kf, prop, o.Name) != nil {
+					continue
+				}
+				failing = append(failing, normObl(o.Name))
+			}
+			if len(rep.Errors) > 0 {
+				failing = append(failing, "engine: "+oneLine(rep.Errors[0]))
+			}
+			if len(failing) > 0 {
+				if len(failing) > 4 {
+					failing = failing[:4]
+				}
+				res["outcome"] = "DETECTED"
+				res["failing_obligations"] = failing
+			} else {
+				res["outcome"] = "MISSED"
+			}
+		}()
+		out = append(out, res)
+	}
+	return out
 }
